@@ -41,6 +41,27 @@ type verifSQLControl struct {
 	log   []verifSQLOp
 	hooks map[string]verifSQLHook
 	keep  bool
+	rowF  map[string]func(q string, n int) error
+}
+
+// SetRowFault installs (nil: removes) the function consulted before every row fetch on the labelled database.
+func (c *verifSQLControl) SetRowFault(db string, f func(q string, n int) error) {
+	c.mu.Lock()
+	if c.rowF == nil {
+		c.rowF = map[string]func(string, int) error{}
+	}
+	if f == nil {
+		delete(c.rowF, db)
+	} else {
+		c.rowF[db] = f
+	}
+	c.mu.Unlock()
+}
+
+func (c *verifSQLControl) rowFaultFor(db string) func(string, int) error {
+	c.mu.Lock()
+	defer c.mu.Unlock()
+	return c.rowF[db]
 }
 
 var verifSQL = &verifSQLControl{seq: map[string]int{}, hooks: map[string]verifSQLHook{}}
@@ -181,10 +202,23 @@ type verifSQLRows struct {
 	db, q string
 	r     driver.Rows
 	once  sync.Once
+	n     int
 }
 
-func (r *verifSQLRows) Columns() []string              { return r.r.Columns() }
-func (r *verifSQLRows) Next(dest []driver.Value) error { return r.r.Next(dest) }
+func (r *verifSQLRows) Columns() []string { return r.r.Columns() }
+
+// Next is the fourth interposition point: a row fault set with SetRowFault sees (statement, ordinal of the row about
+// to be fetched) and can make the fetch fail - the connection dropping while a result set is being read.  Not numbered,
+// not logged: the sequence numbers of the other operations do not depend on how many rows were read.
+func (r *verifSQLRows) Next(dest []driver.Value) error {
+	r.n++
+	if f := verifSQL.rowFaultFor(r.db); f != nil {
+		if err := f(r.q, r.n); err != nil {
+			return err
+		}
+	}
+	return r.r.Next(dest)
+}
 func (r *verifSQLRows) Close() error {
 	err := r.r.Close()
 	r.once.Do(func() { verifSQL.notify(r.db, "rows-closed", r.q) })
@@ -295,4 +329,18 @@ func (g *verifOutage) WriteAttempts() []verifSQLOp {
 	g.mu.Lock()
 	defer g.mu.Unlock()
 	return append([]verifSQLOp{}, g.Writes...)
+}
+
+// verifStmtClass: a short class name for a statement (verb + first table-looking word).
+func verifStmtClass(q string) string {
+	f := strings.Fields(strings.ToLower(q))
+	if len(f) == 0 {
+		return "empty"
+	}
+	for i, w := range f {
+		if (w == "from" || w == "into" || w == "update") && i+1 < len(f) {
+			return f[0] + ":" + strings.Trim(f[i+1], "(),;")
+		}
+	}
+	return f[0]
 }
